@@ -135,6 +135,8 @@ type fixture struct {
 	vals      []types.Value
 	sch       *schema.Schema
 	validator *validate.Validator
+	zero      *cedar.PolicySet // &cedar.PolicySet{} (never written to)
+	failed    *cedar.PolicySet // what NewPolicySetFromBytes returned together with an error
 }
 
 func sortUIDs(us []types.EntityUID) {
@@ -155,7 +157,12 @@ func toVals(vs []ir.Value) []types.Value {
 }
 
 func build(c *Case) (*fixture, error) {
-	f := &fixture{ps: cedar.NewPolicySet()}
+	f := &fixture{ps: cedar.NewPolicySet(), zero: &cedar.PolicySet{}}
+	// what a failed load hands back next to its error is shared and read like any other set
+	f.failed, _ = cedar.NewPolicySetFromBytes("broken.cedar", []byte("permit(principal, action, resource) when {"))
+	if f.failed == nil {
+		f.failed = &cedar.PolicySet{}
+	}
 	for i, p := range c.Policies {
 		var pol *cedar.Policy
 		if i < len(c.FromText) && c.FromText[i] {
@@ -390,6 +397,26 @@ var ops = []opDef{
 		sort.Strings(lines)
 		return errStr(err) + "\n" + strings.Join(lines, "\n")
 	}},
+	{kind: "empty-sets.read", classes: []int{clsPolicies}, dom: nReq, run: func(f *fixture, a, b int) string {
+		// every read-only entry point on the zero-value set and on the set a failed load returned
+		var sb strings.Builder
+		for _, ps := range []*cedar.PolicySet{f.zero, f.failed} {
+			sb.WriteString(canonDiag(cedar.Authorize(ps, f.em, f.reqs[a])))
+			sb.WriteString(canonDiag(ps.IsAuthorized(f.em, f.reqs[a])))
+			n := 0
+			for range ps.All() {
+				n++
+			}
+			j, jerr := ps.MarshalJSON()
+			fmt.Fprintf(&sb, "|%d %d %v %q %s %v", n, len(ps.Map()), ps.Get("x") == nil, ps.MarshalCedar(), j, jerr)
+			err := batch.Authorize(context.Background(), ps, f.em, batch.Request{Principal: f.reqs[a].Principal, Action: f.reqs[a].Action, Resource: f.reqs[a].Resource, Context: f.reqs[a].Context}, func(r batch.Result) error {
+				sb.WriteString(canonDiag(r.Decision, r.Diagnostic))
+				return nil
+			})
+			sb.WriteString(errStr(err))
+		}
+		return sb.String()
+	}},
 	{kind: "PolicySet.MarshalCedar", classes: []int{clsPolicies}, dom: none, run: func(f *fixture, a, b int) string { return string(f.ps.MarshalCedar()) }},
 	{kind: "PolicySet.MarshalJSON", classes: []int{clsPolicies}, dom: none, run: func(f *fixture, a, b int) string { return bytesErr(f.ps.MarshalJSON()) }},
 	{kind: "PolicySet.Get/All/Map", classes: []int{clsPolicies}, dom: nPol, run: func(f *fixture, a, b int) string {
@@ -594,6 +621,7 @@ func deepParts(a, b *fixture) []deepPart {
 		out = append(out, deepPart{fmt.Sprintf("policy object %s (AST + compiled evaluator)", a.ids[i]), a.pols[i], b.pols[i]})
 	}
 	out = append(out, deepPart{"entity map", a.em, b.em}, deepPart{"requests", a.reqs, b.reqs}, deepPart{"batch request", a.breq, b.breq}, deepPart{"values", a.vals, b.vals})
+	out = append(out, deepPart{"zero-value policy set", a.zero, b.zero}, deepPart{"policy set returned beside a parse error", a.failed, b.failed})
 	return out
 }
 
